@@ -9,7 +9,7 @@ grep -v '^#' "$V/selftest/refactors.tsv" | while IFS="$(printf '\t')" read -r pa
   rm -rf "$S/repo"; cp -r /repo "$S/repo"; rm -rf "$S/repo/.git"
   (cd "$S/repo" && patch -p1 -s < "$V/selftest/refactors/$patch") || { echo "REFACTOR-ERROR $patch does not apply"; echo x >> "$S/fail"; continue; }
   (cd "$S/repo" && go build ./... ) || { echo "REFACTOR-ERROR $patch does not compile"; echo x >> "$S/fail"; continue; }
-  mkdir -p "$S/verif"; cp "$V/known_findings.json" "$S/verif/"; rm -rf "$S/verif/contracts"; cp -r "$V/contracts" "$S/verif/contracts"
+  mkdir -p "$S/verif"; cp "$V/known_findings.json" "$V/properties.jsonl" "$S/verif/"; rm -rf "$S/verif/contracts"; cp -r "$V/contracts" "$S/verif/contracts"
   out=$("$V/bin/govc" -repo "$S/repo" -verif "$S/verif" -prop "$prop" 2>&1); rc=$?
   if [ $rc -eq 0 ] && ! echo "$out" | grep -q VIOLATION; then echo "refactor ok   $patch ($prop)"; else echo "REFACTOR-ALARM $patch ($prop) rc=$rc"; echo "$out" | grep -E "VIOLATION|UNDECIDED" | head -3; echo x >> "$S/fail"; fi
 done
